@@ -139,6 +139,47 @@ def h_two_samples(env, N, which):
 h_two_samples.uses_rng = True
 
 
+def h_povm_samples(env, N, which, cls='CliffordCircuit'):
+    """circ.povm(2) of a random-gate circuit, both samples kept: each is a valid state, drawing the second leaves the first
+    untouched, they share no memory, and the second depends on its own coins only"""
+    M = Mods(env)
+    base = {'onsite': lambda: M.ci.onsite_rcc(N), 'global': lambda: M.ci.global_rcc(N), 'brickwall': lambda: M.ci.brickwall_rcc(N, 1)}[which]()
+    if cls == 'Circuit':
+        circ = M.ci.Circuit(N)
+        for layer in base.layers_forward():
+            for gt in layer.gates:
+                circ.take(gt)
+    else:
+        circ = base
+    gen = circ.povm(2)
+    r1 = env.run(lambda: next(gen))
+    env.goal('first_no_exception', b_not(r1.raised))
+    if r1.value is None:
+        return
+    a = r1.value
+    ga, pa, ra = np.array(a.gs, dtype=object).copy(), np.array(a.ps, dtype=object).copy(), a.r
+    inv_goals(env, a.gs, a.ps, a.r, N, None, 'first_')
+    n1 = len(env.coins()) if env.symbolic else 0
+    r2 = env.run(lambda: next(gen))
+    env.goal('second_no_exception', b_not(r2.raised))
+    if r2.value is None:
+        return
+    b = r2.value
+    inv_goals(env, b.gs, b.ps, b.r, N, None, 'second_')
+    env.goal('first_sample_unchanged_by_second_draw', AND([arr_eq(a.gs, ga), arr_eq(a.ps, pa), eq(a.r, ra)]))
+    env.goal('samples_share_no_memory', not (np.shares_memory(np.asarray(a.gs), np.asarray(b.gs)) or np.shares_memory(np.asarray(a.ps), np.asarray(b.ps))))
+    if env.symbolic:
+        first = set(str(c.e) for c in env.coins()[:n1])
+        used = set()
+        for x in list(np.asarray(b.gs, dtype=object).reshape(-1)) + list(np.asarray(b.ps, dtype=object).reshape(-1)):
+            if isinstance(x, SV):
+                used |= set(str(v) for v in z3_vars(x.e))
+        env.goal('second_sample_independent_of_first_coins', not (used & first))
+
+
+h_povm_samples.uses_rng = True
+
+
 def z3_vars(e):
     seen, out, todo = set(), set(), [e]
     while todo:
@@ -382,6 +423,11 @@ def jobs(tier):
         for r in range(N + 1):
             J.append(dict(harness=('tableau', 'h_measure'), params=dict(N=N, r=r, L=1, goals='born'), timeout_s=300, cost=10))
     J.append(dict(harness=('tableau', 'h_measure'), params=dict(N=2, r=1, L=2, goals='born'), timeout_s=300, cost=20))
+    for which in ('onsite', 'global', 'brickwall'):
+        for cls in ('CliffordCircuit', 'Circuit'):
+            if which == 'global' and cls == 'Circuit':
+                continue
+            J.append(dict(harness=('c16', 'h_povm_samples'), params=dict(N=2 if which != 'onsite' else 1, which=which, cls=cls), timeout_s=900, cost=60, max_paths=5000))
     N = 2
     for r in range(N + 1):
         for which in ('onsite', 'global', 'brickwall'):
